@@ -36,8 +36,19 @@ struct World {
     EvalString deps; deps.AddText("gcc");
     r->AddBinding("deps", deps);
     state->bindings_.AddRule(std::unique_ptr<const Rule>(r));
+    // a second rule without a deps binding: the build statement supplies "deps = gcc" itself
+    Rule* r2 = new Rule("cc_nodeps");
+    EvalString cmd2; cmd2.AddText("cc");
+    r2->AddBinding("command", cmd2);
+    state->bindings_.AddRule(std::unique_ptr<const Rule>(r2));
     for (auto& o : live) {
-      Edge* e = state->AddEdge(r);
+      bool build_level = o == "o2x";
+      Edge* e = state->AddEdge(build_level ? r2 : r);
+      if (build_level) {
+        BindingEnv* env = new BindingEnv(&state->bindings_);
+        env->AddBinding("deps", "gcc");
+        e->env_ = env;
+      }
       string err;
       state->AddOut(e, o, 0, &err);
     }
@@ -218,6 +229,7 @@ static vector<Op> MainAlphabet(bool thorough, bool with_long) {
   sess({}, "session()");
   sess({{0, 5, {0}}}, "session(o1@5<d>)");
   sess({{0, 6, {1, 2}}}, "session(o1@6<de,dep>)");
+  sess({{0, 6, {1, 3}}}, "session(o1@6<de,deps>)");
   sess({{0, 5, {}}}, "session(o1@5<>)");
   sess({{1, 0x100000007LL, {3, 0}}}, "session(o2x@2^32+7<deps,d>)");
   sess({{1, 5, {2}}}, "session(o2x@5<dep>)");
@@ -280,13 +292,13 @@ int main(int argc, char** argv) {
     if (lab.compare(0, 5, "tear@") == 0) {
       auto it = d->files.find(kPath);
       if (it != d->files.end()) it->second.data.resize(atol(lab.c_str() + 5));
-      H.CheckLoad(d, nullptr, "load after " + lab);
+      { vfs::Disk probe = *d; H.CheckLoad(&probe, nullptr, "load after " + lab); }
       return true;
     }
     if (lab.compare(0, 8, "garbage:") == 0) {
       auto it = d->files.find(kPath);
       if (it != d->files.end()) it->second.data += vx::Unhex(lab.substr(8));
-      H.CheckLoad(d, nullptr, "load after " + lab, false);
+      { vfs::Disk probe = *d; H.CheckLoad(&probe, nullptr, "load after " + lab, false); }
       return true;
     }
     for (auto* al : {&alpha, &cont})
@@ -339,7 +351,7 @@ int main(int argc, char** argv) {
         Node t = n;
         t.disk.files[kPath].data.resize(o);
         t.trail.push_back("tear@" + to_string(o));
-        H.CheckLoad(&t.disk, nullptr, "load after tear@" + to_string(o));
+        { vfs::Disk probe = t.disk; H.CheckLoad(&probe, nullptr, "load after tear@" + to_string(o)); }
         report(t.trail);
         for (auto& c1 : cont) {
           Node t1 = t;
@@ -384,15 +396,30 @@ int main(int argc, char** argv) {
           static const char* bt[] = {"\x00", "\xff\xff", "\x01\x00\x00"};
           tails.push_back(string(bt[b], b + 1));
         }
+        {
+          // complete, plausible records with exactly one damaged field (what an interleaved write
+          // from a second process, or a flipped word, looks like)
+          lp::DepsLogModel cur = lp::ParseDepsLog(f->data);
+          uint32_t next_id = (uint32_t)cur.paths.size();
+          auto W = [](uint32_t w) { return string((const char*)&w, 4); };
+          tails.push_back(W(8) + "newp" + W(~(next_id + 1)));          // path record, checksum of the wrong id
+          tails.push_back(W(8) + "newp" + W(~next_id) + W(8) + "new2" + W(~next_id));  // second one repeats the id
+          tails.push_back(W(8) + "new\0" + W(next_id));               // checksum not complemented
+          if (next_id > 0) {
+            tails.push_back(W(0x80000010u) + W(0) + W(9) + W(0) + W(next_id));       // deps record naming an unknown id
+            tails.push_back(W(0x80000010u) + W(next_id + 3) + W(9) + W(0) + W(0));   // unknown output id
+            tails.push_back(W(0x8000000eu) + W(0) + W(9) + W(0) + string("\0\0", 2)); // size not a multiple of 4
+            tails.push_back(W(8) + cur.paths[0].substr(0, 4) + string(4 - std::min<size_t>(4, cur.paths[0].size()), '\0') + W(~next_id));  // duplicate path
+          }
+        }
         for (auto& tail : tails) {
           garbage++;
           Node t = n;
           t.disk.files[kPath].data += tail;
           t.trail.push_back("garbage:" + vx::Hex(tail));
-          H.CheckLoad(&t.disk, nullptr, "load after garbage", false);
+          { vfs::Disk probe = t.disk; H.CheckLoad(&probe, nullptr, "load after garbage", false); }
           report(t.trail);
           for (auto& c1 : cont) {
-            if (c1.kind == Op::kLoadOnly) continue;
             Node t1 = t;
             t1.trail.push_back(c1.label);
             H.Apply(c1, &t1.disk, c1.label);
